@@ -25,6 +25,7 @@ import YashModel.Proc.Flow2
 import YashModel.Proc.Flow3
 import YashModel.Proc.Order
 import YashModel.Proc.TrapLemmas
+import YashModel.Proc.TrapGlue
 import YashModel.Generated.WaitCore
 import YashModel.Proc.Spec
 namespace YashModel.Proc
@@ -1783,6 +1784,152 @@ example :
     (tawaitAll run 10 [0, 1] t0).2.2 = .trapped 6 [] ∧ (tawaitAll run 10 [0, 1] t0).1 = [1] := by
   decide
 
+/-- ★ Sys-level glue: what the driver runs for `ts SIG N` once the job is forked — `Command::await_jobs` over the one
+    operand `$!` (`trapWaitRun` = `tawaitJobs` with the driver's scheduler) from ANY `Inv` state, the new child at the end
+    of the process table being in the job table: the outcome is `Trapped(σ)` with no operand finished, the job table
+    untouched, the shell between two commands, the job not recorded as finished — or the driver's fuel ran out; the
+    resulting state satisfies `TInv` either way. -/
+theorem trapWaitRun_trapped {s0 : Sys} (hI : Inv s0) (digits : List Nat) (runs f n σ : Nat) (active : List Nat)
+    (hσ : σ ≠ SIGCHLD_NO) (hmem : s0.children.length ∈ active) :
+    let res := trapWaitRun digits runs { s0 with children := s0.children ++ [{ state := .running f (.exited n) }] }
+      active s0.children.length σ
+    TInv res.2.1 ∧
+    ((res.2.2 = .trapped σ [] ∧ res.1 = active ∧ res.2.1.sys.pc = .done ∧
+        jobDone res.2.1.sys.log s0.children.length = none) ∨ res.2.2 = .failed []) := by
+  intro res
+  have key := ts_driver_trapped_any_children hI f n σ 100000 (mkChoices digits runs) hσ
+  simp only at key
+  obtain ⟨_, hout⟩ := key
+  have hI1 := inv_fork hI f (.exited n)
+  have hstart := tinv_start (s := { s0 with children := s0.children ++ [{ state := .running f (.exited n) }], pc := .done })
+    ⟨hI1.changed_halted, by intro h'; simp at h', by intro h'; simp at h', by intro h'; simp at h', hI1.once,
+      hI1.logged⟩ rfl s0.children.length [σ] [(s0.children.length, σ)]
+  have hstart' : TInv (TSys.start { s0 with children := s0.children ++ [{ state := .running f (.exited n) }] }
+      s0.children.length [σ] [(s0.children.length, σ)]) := by
+    unfold TSys.start at hstart ⊢
+    split <;> rename_i hjd
+    · simp only [hjd] at hstart; exact hstart
+    · simp only [hjd] at hstart; exact hstart
+  have hrunI : TInv (trun 100000 (mkChoices digits runs) (parentTurn (TSys.start
+      { s0 with children := s0.children ++ [{ state := .running f (.exited n) }] }
+      s0.children.length [σ] [(s0.children.length, σ)]))) :=
+    tinv_steps (TSteps.trans (parentBurst_tsteps _ _) (trun_tsteps 100000 (mkChoices digits runs) _)) hstart'
+  have hres : res = trapWaitRun digits runs { s0 with children := s0.children ++ [{ state := .running f (.exited n) }] }
+      active s0.children.length σ := rfl
+  simp only [trapWaitRun, tawaitJobs, hmem, if_true, next_eq_start] at hres
+  cases ho : (trun 100000 (mkChoices digits runs) (parentTurn (TSys.start
+      { s0 with children := s0.children ++ [{ state := .running f (.exited n) }] }
+      s0.children.length [σ] [(s0.children.length, σ)]))).out with
+  | none =>
+    simp only [ho] at hres
+    rw [hres]
+    exact ⟨hrunI, Or.inr rfl⟩
+  | some o =>
+    obtain ⟨h1, h2⟩ := hout o ho
+    subst h1
+    simp only [ho] at hres
+    rw [hres]
+    have hpc : (trun 100000 (mkChoices digits runs) (parentTurn (TSys.start
+        { s0 with children := s0.children ++ [{ state := .running f (.exited n) }] }
+        s0.children.length [σ] [(s0.children.length, σ)]))).sys.pc = .done := by
+      apply Classical.byContradiction
+      intro hne
+      have := hrunI.out_done.mpr hne
+      rw [ho] at this; simp at this
+    exact ⟨hrunI, Or.inl ⟨rfl, rfl, hpc, h2⟩⟩
+
+/-- ★ The `St`-level glue around `ts_driver_trapped_any_children`: for EVERY interpreter state of the model column whose
+    process table satisfies `Inv` — whatever jobs, whatever earlier statements — the statement `ts SIG N` (also `tsn`,
+    `tsr`, and, after `St.wake`, `tw`: `St.trapWait [sig] n [] false`) computes the exit status `Spec.waitInterrupted`
+    (what the spec column prints: 384 + SIG), keeps the new job in the job table (the next `wait` for it yields its
+    status, not 127), and leaves a process table that again satisfies `Inv` with the shell between two commands —
+    so the statement may be followed by anything, itself included; or the driver's fuel ran out (status 998, which
+    the run would show as a disagreement).  Nothing is assumed about `St.newJob`: the new child, its pid and the start
+    state of the built-in are computed from the definitions (`trapWait_uses_run`). -/
+theorem trapWait_status_end_to_end (st : St) (sig : String) (n : Nat) (hu : st.useSys = true)
+    (hI : Inv st.sys) (hσ : sigNo sig ≠ SIGCHLD_NO) (hchld : (sig != "CHLD") = true) :
+    let st' := st.trapWait [sig] n [] false
+    Inv st'.sys ∧
+    ((st'.status = Spec.waitInterrupted (sigNo sig) ∧ st.sys.children.length ∈ st'.active ∧ st'.sys.pc = .done) ∨
+      st'.status = 998) := by
+  intro st'
+  obtain ⟨h1, h2, h3⟩ := trapWait_uses_run st sig n hu hchld
+  have key := trapWaitRun_trapped hI st.digits st.runs (fuelOf st.digits st.sys.children.length) (exitStatusSeen n)
+    (sigNo sig) (st.active ++ [st.sys.children.length]) hσ (by simp)
+  simp only at key
+  obtain ⟨hT, hor⟩ := key
+  refine ⟨by show Inv (st.trapWait [sig] n [] false).sys; rw [h1]; exact hT.inv, ?_⟩
+  rcases hor with ⟨ho, hact, hpc, _⟩ | ho
+  · left
+    refine ⟨?_, ?_, ?_⟩
+    · show (st.trapWait [sig] n [] false).status = _
+      rw [h3, ho]; simp only [opsStatus, Spec.waitInterrupted, SIGNAL_EXIT_OFFSET]; omega
+    · show _ ∈ (st.trapWait [sig] n [] false).active
+      rw [h2, hact]; simp
+    · show (st.trapWait [sig] n [] false).sys.pc = _
+      rw [h1]; exact hpc
+  · right
+    show (st.trapWait [sig] n [] false).status = _
+    rw [h3, ho]; rfl
+
+example : sigNo "USR1" ≠ SIGCHLD_NO ∧ sigNo "CHLD" = SIGCHLD_NO := by decide
+
+
 end WaitTrap
+
+/-- ★ Zombie / job accounting at a command boundary (`Env::update_all_subshell_statuses` has just finished: the reap
+    loop of the shell ends, `reap → done`), for every number of children, every behaviour, every schedule leading
+    there (`Inv` is all that is used): NO child holds an unreported state — a terminated child has been reaped, no
+    zombie outlives the command during which it ended —, and for every child the state recorded for its job (the
+    `log` entry every `system.wait` result is passed to `JobList::update_status` as) IS the state of the process:
+    alive ⇔ nothing recorded, terminated with `r` ⇔ exactly one record, and that record is `r`.  The run evaluates the
+    same statement on the real process table and the real job list after every command (`jcheck`: `FAIL:jobs(…)`). -/
+theorem command_boundary_accounting {s s' : Sys} (h : Inv s) (hpc : s.pc = .reap)
+    (hs : parentStep s = some s') (hd : s'.pc = .done) :
+    ∀ (i : Nat) (c : Child), s'.children[i]? = some c →
+      c.changed = false ∧
+      ((c.state.isAlive = true ∧ logCount s'.log i = 0) ∨
+       (∃ r, c.state = .halted r ∧ (i, r) ∈ s'.log ∧ logCount s'.log i = 1)) := by
+  have hI' : Inv s' := inv_parent h hs
+  have hch : ∀ (i : Nat) (c : Child), s'.children[i]? = some c → c.changed = false := by
+    unfold parentStep at hs
+    simp only [hpc] at hs
+    split at hs
+    · simp only [Option.some.injEq] at hs; subst hs
+      simp [hpc] at hd
+    · rename_i hw
+      simp only [Option.some.injEq] at hs; subst hs
+      intro i c hc
+      exact (sysWait_none hw).2 i c hc trivial
+    · rename_i hw
+      simp only [Option.some.injEq] at hs; subst hs
+      intro i c hc
+      exact (sysWait_any_echild.mp hw i c hc).1
+  intro i c hc
+  refine ⟨hch i c hc, ?_⟩
+  have honce := hI'.once i
+  rw [reaped_self hc] at honce
+  cases hst : c.state with
+  | running f r =>
+    left
+    simp [hst, PState.isAlive] at honce
+    exact ⟨by simp [PState.isAlive], honce⟩
+  | halted r =>
+    right
+    simp [hst, PState.isAlive, hch i c hc] at honce
+    have hpos : 0 < logCount s'.log i := by omega
+    obtain ⟨e, he, hei⟩ := List.countP_pos_iff.mp hpos
+    simp at hei
+    obtain ⟨c', hc', hst'⟩ := hI'.logged e.1 e.2 (by simpa using he)
+    rw [hei, hc] at hc'
+    simp at hc'; subst hc'
+    rw [hst] at hst'
+    simp at hst'
+    refine ⟨r, rfl, ?_, honce⟩
+    have : e = (i, r) := by
+      obtain ⟨a, b⟩ := e
+      simp at hei hst'; subst hei; subst hst'; rfl
+    rw [← this]; exact he
+
 
 end YashModel.Proc
